@@ -6,7 +6,7 @@ input layout:  byte 0 & 7 -> message type (0..5 -> 1..6, 6 -> 7 (unassigned), 7 
                bytes 2.. -> the message body, cut at msg_size - 19
 
 run:   PYTHONPATH=/repo/src:/verif:/verif/.deps /venv/bin/python fuzz/fuzz_decode.py <corpus-dir> -runs=N -seed=S -max_len=4096
-       (fuzz/run_fuzz.sh makes a fresh temporary corpus seeded from the qa vectors and calls this)
+       (fuzz/run_fuzz.sh [runs] [seed] makes a fresh temporary corpus seeded from the qa vectors and calls this)
 
 A violation is saved as a replayable case of the C03 'bytes' engine in $VERIF_C03_FINDINGS (default /verif/fuzz/findings)
 under <sha1 of the case>.json and announced on stdout as 'C03-FINDING <json>'.  Signatures matching $VERIF_C03_KNOWN
@@ -56,7 +56,7 @@ def write_seeds(directory: str, target) -> int:
     seeds = []
     for m in c03_corpus.MESSAGES:
         body = bytes.fromhex(m['hex'])
-        oks = [i for i in range(len(target.NEG_TABLE)) if target.decode_and_force(m['type'], body, target.negotiated_for(i))[0] == 'ok']
+        oks = [i for i in range(len(target.NEG_TABLE)) if target.measured(m['type'], body, target.negotiated_for(i))[0][0] == 'ok']  # measured: bounded work
         for i in oks[:2] or [0]:
             seeds.append(join_input(m['type'], i, body))
     seeds += [join_input(4, 1, b''), join_input(5, 1, b'\x00\x01\x00\x01'), join_input(3, 1, b'\x06\x02\x03abc'), join_input(6, 1, b'\x00\x01\x00\x06\x00\x01\x01abc')]
@@ -82,11 +82,25 @@ def main() -> None:
         from vlib import c03_corpus, c03_target
 
         # the decoders import their helpers lazily: touch every path the seeds reach while the import hook is active
-        for m in c03_corpus.MESSAGES:
-            for i in range(len(c03_target.NEG_TABLE)):
-                c03_target.decode_and_force(m['type'], bytes.fromhex(m['hex']), c03_target.negotiated_for(i))
-        for t, b in ((3, b'\x06\x02\x03abc'), (4, b''), (5, b'\x00\x01\x00\x01'), (6, b'\x00\x01\x00\x06\x00\x01\x01abc'), (6, b'\x00\x03\x00\x0b' + bytes(11)), (6, b'\xff\xff\x00\x00')):
-            c03_target.decode_and_force(t, b, c03_target.negotiated_for(1))
+        # (under an alarm: a decoder that never returns - a mutated tree - must not hang the start-up)
+        import signal
+
+        def _give_up(_signo, _frame):
+            raise TimeoutError('warm-up')
+
+        signal.signal(signal.SIGALRM, _give_up)
+        signal.setitimer(signal.ITIMER_REAL, 60)
+        try:
+            for m in c03_corpus.MESSAGES:
+                for i in (c03_target.NEG_INDEX['all-extmsg'], c03_target.NEG_INDEX['all-asn2'], c03_target.NEG_INDEX['ext-nexthop'], 0):
+                    c03_target.decode_and_force(m['type'], bytes.fromhex(m['hex']), c03_target.negotiated_for(i))
+            for t, b in ((3, b'\x06\x02\x03abc'), (4, b''), (5, b'\x00\x01\x00\x01'), (6, b'\x00\x01\x00\x06\x00\x01\x01abc'), (6, b'\x00\x03\x00\x0b' + bytes(11)), (6, b'\xff\xff\x00\x00')):
+                c03_target.decode_and_force(t, b, c03_target.negotiated_for(1))
+        except TimeoutError:
+            print('C03-WARMUP-TIMEOUT', flush=True)
+        finally:
+            signal.setitimer(signal.ITIMER_REAL, 0)
+            signal.signal(signal.SIGALRM, signal.SIG_DFL)
 
     table_size = len(c03_target.NEG_TABLE)
     sizes = [c03_target.msg_size(i) - 19 for i in range(table_size)]
